@@ -154,7 +154,9 @@ class SymHistory:
                 continue          # enum types have no argument-less constructor
             n = ctx.fresh_int("pre.%s" % t, 0, ctx.U)
             for i in range(ctx.U):
-                self.I.call_fn(item, V.int_lt(i, n), [], self_val=self.m)
+                r = self.I.call_fn(item, V.int_lt(i, n), [], self_val=self.m)
+                if getattr(self, "on_alt", None) is not None:
+                    self.on_alt(V.int_lt(i, n), "new_" + t, [], r)
             pre.append((t, n))
         self.steps.append(("precreate", pre))
 
@@ -169,7 +171,9 @@ class SymHistory:
             args = [L.symbolic_arg(ctx, self.sch, self.su, self.st, inp["ty"], "h%d.%s.arg%d" % (idx, name, i), pre)
                     for i, inp in enumerate(item["sig"]["inputs"][1:])]
             self.assume.append(c.implies(g, c.andl(pre)))
-            self.I.call_fn(item, g, args, self_val=self.m)
+            r = self.I.call_fn(item, g, args, self_val=self.m)
+            if getattr(self, "on_alt", None) is not None:
+                self.on_alt(g, name, args, r)
             alts.append((name, args))
         self.steps.append(("call", sel, alts))
 
